@@ -438,6 +438,11 @@ func (fr *FnRun) mapUpdate(st *State, x *ssa.MapUpdate) {
 		panic(abortf("MapUpdate on %T", fr.value(st, x.Map)))
 	}
 	fr.oblige(st, "mapnil", fr.ordOf(x), Not(m.Nil), nil, "assignment to entry in non-nil map")
+	if m.Nil.IsTrue() || m.Obj == nil {
+		// definitely nil: the program panics here; the obligation above decides whether this point
+		// is reachable at all, the path ends
+		panic(pathStop{})
+	}
 	st.assume(Not(m.Nil))
 	key, ok := fr.mapKeyTerm(ex.force(st, fr.value(st, x.Key)))
 	if !ok {
